@@ -1,5 +1,5 @@
 use std::borrow::Cow;
-use std::collections::BTreeMap;
+use std::collections::{BTreeMap, HashSet};
 use std::path::{Path, PathBuf};
 
 use rustc_ast::ast;
@@ -61,7 +61,14 @@ pub(crate) struct ModResolver<'ast, 'psess> {
     psess: &'psess ParseSess,
     directory: Directory,
     file_map: FileModMap<'ast>,
+    /// Canonical paths of the files in `file_map`: a file reached under two spellings of its
+    /// path (`a.rs` and `sub/../a.rs`, a symbolic link) is still one file.
+    canonical_paths: HashSet<PathBuf>,
     recursive: bool,
+}
+
+fn canonical_path(path: &Path) -> PathBuf {
+    path.canonicalize().unwrap_or_else(|_| path.to_path_buf())
 }
 
 /// Represents errors while trying to resolve modules.
@@ -112,6 +119,7 @@ impl<'ast, 'psess, 'c> ModResolver<'ast, 'psess> {
                 ownership: directory_ownership,
             },
             file_map: BTreeMap::new(),
+            canonical_paths: HashSet::new(),
             psess,
             recursive,
         }
@@ -127,6 +135,9 @@ impl<'ast, 'psess, 'c> ModResolver<'ast, 'psess> {
             FileName::Real(ref p) => p.parent().unwrap_or(Path::new("")).to_path_buf(),
             _ => PathBuf::new(),
         };
+        if let FileName::Real(ref p) = root_filename {
+            self.canonical_paths.insert(canonical_path(p));
+        }
 
         // Skip visiting sub modules when the input is from stdin.
         if self.recursive {
@@ -289,15 +300,19 @@ impl<'ast, 'psess, 'c> ModResolver<'ast, 'psess> {
     ) -> Result<(), ModuleResolutionError> {
         match sub_mod_kind {
             SubModKind::External(mod_path, _, sub_mod) => {
-                self.file_map
-                    .entry(FileName::Real(mod_path))
-                    .or_insert(sub_mod);
-            }
-            SubModKind::MultiExternal(mods) => {
-                for (mod_path, _, sub_mod) in mods {
+                if self.canonical_paths.insert(canonical_path(&mod_path)) {
                     self.file_map
                         .entry(FileName::Real(mod_path))
                         .or_insert(sub_mod);
+                }
+            }
+            SubModKind::MultiExternal(mods) => {
+                for (mod_path, _, sub_mod) in mods {
+                    if self.canonical_paths.insert(canonical_path(&mod_path)) {
+                        self.file_map
+                            .entry(FileName::Real(mod_path))
+                            .or_insert(sub_mod);
+                    }
                 }
             }
             _ => (),
